@@ -207,7 +207,8 @@ def discharged(F, f, src, kind, deref, var):
             how = held_by_callers(F, f, member)
             if how:
                 return how
-    rc = ff(f).rendered_conds_at(deref) or set()
+    from engines import facts_x as _fx
+    rc = set(ff(f).rendered_conds_at(deref) or set()) | set(_fx(F, f, deref) or set())
     if kind in ('nonCommentChildNode', 'mathmlChildNode') and len(src.get('c', [])) == 2:
         # guarded by a count of the same node: nonCommentChildCount(x) == K (or != K false) with K > index
         import re as _re
@@ -249,6 +250,35 @@ def discharged(F, f, src, kind, deref, var):
             if t and (c.endswith('->isResolved()') or c.endswith('->hasModel()')):
                 return 'under %s' % c
     return None
+
+
+def inherited_invariant(F, f, canon, kind, inv, depth=0):
+    """A lookup that sits in a helper split off from a larger function: with the helper's parameters replaced by the arguments at EVERY call
+    site, is it a lookup for which a confirmed invariant exists in the caller (or, one more level up, in the caller's callers)?  Returns the
+    reason (prefixed with the route) or None."""
+    import re as _re
+    sites = _call_sites_of(F, f.key)
+    if not sites or depth > 2:
+        return None
+    reasons = []
+    for g, c in sites:
+        args = c['c'][1:] if c.get('mc') else c.get('c', [])
+        if len(args) < len(f.params):
+            return None
+        from engines import param_tokens
+        toks = param_tokens(f)
+        sub = {toks[p_.get('d')]: render_canon(g, a) for p_, a in zip(f.params, args)}
+        txt = _re.sub(r'\$[A-Za-z0-9]*#\d+', lambda m_: sub.get(m_.group(0), m_.group(0)), canon)
+        k = '%s|%s|~%s' % (g.short, kind, txt[:110])
+        if k in inv:
+            reasons.append('in the helper %s, called from %s with these arguments: %s' % (f.short.split('::')[-1], g.short.split('::')[-1], inv[k]))
+            continue
+        up = inherited_invariant(F, g, txt, kind, inv, depth + 1) if g is not f else None
+        if up:
+            reasons.append(up)
+            continue
+        return None
+    return reasons[0] if reasons else None
 
 
 def run(F, rep, rid, kinds=None):
@@ -293,11 +323,17 @@ def run(F, rep, rid, kinds=None):
             # ... nor about the name a loop gives to its element (range-for variable, structured binding): provenance form
             alt2 = '|'.join(parts[:2] + [render_prov(f, src)[:70]] + parts[3:])
             # ... nor about the names of locals and parameters at all: canonical form (single-definition locals spelled out, parameters by position)
-            alt3 = '|'.join(parts[:2] + ['~' + render_canon(f, src)[:110]] + parts[3:])
+            alt3 = '|'.join([parts[0].rsplit('/', 1)[0], parts[1], '~' + render_canon(f, src)[:110]] + parts[3:])
+            inh = None
+            if not (key in inv or alt in inv or alt2 in inv or alt3 in inv) and len(parts) == 3:
+                inh = inherited_invariant(F, f, render_canon(f, src), parts[1], inv)
             if key in inv or alt in inv or alt2 in inv or alt3 in inv:
                 rsn = inv.get(key) or inv.get(alt) or inv.get(alt2) or inv[alt3]
                 rep.exempt(rid, key, rsn)
                 cited |= cited_rules(rsn)
+            elif inh:
+                rep.exempt(rid, key, inh)
+                cited |= cited_rules(inh)
             else:
                 rep.fail(rid, key, f.where(deref), '`%s` can be null (%s) and is dereferenced as `%s` without a test' % (render(src)[:50], key.split('|')[1], render(f.parent(deref) or deref)[:60]))
         else:
